@@ -40,13 +40,15 @@ ASSUMPTIONS = [
 ]
 
 
-EXPECTED_PROBES = ['binary_file_replaced_at_same_path', 'split_input_not_plain_float64_c_order', 'caller_overwrote_split_outputs', 'all_three_formats_compared', 'empty_first_set', 'empty_second_set', 'float_and_exact_floor_differ', 'gap_labels_rejected', 'ids_beyond_float32_exact_range', 'ids_differ_from_row_numbers', 'pct_times_n_is_an_integer', 'single_sample_file_loaded', 'split_reissued_after_prng_perturbation', 'three_or_more_classes']
+EXPECTED_PROBES = ['negative_identifiers', 'file_of_several_hundred_kib', 'binary_file_replaced_at_same_path', 'split_input_not_plain_float64_c_order', 'caller_overwrote_split_outputs', 'all_three_formats_compared', 'empty_first_set', 'empty_second_set', 'float_and_exact_floor_differ', 'gap_labels_rejected', 'ids_beyond_float32_exact_range', 'ids_differ_from_row_numbers', 'pct_times_n_is_an_integer', 'single_sample_file_loaded', 'split_reissued_after_prng_perturbation', 'three_or_more_classes']
+
+SLOW_ARMS = ("big",)
 
 
 def arms(tier):
     if tier == "thorough":
-        return [("mixed", 2_500_000), ("split", 2_500_000)]
-    return [("mixed", 100_000), ("split", 100_000)]
+        return [("mixed", 2_500_000), ("split", 2_500_000), ("big", 1_500)]
+    return [("mixed", 100_000), ("split", 100_000), ("big", 48)]
 
 
 def hist_slice(tier):
@@ -60,6 +62,10 @@ def f32(x):
 def gen_case(rng, arm, tier, k=0):
     n = rng.choice((1, 1, 2, 2, 3, 4, 5, 7, 10, 16, 30)) if rng.random() < 0.5 else rng.randint(1, 30)
     d = rng.randint(1, 6)
+    if arm == "big":
+        # files well beyond any internal buffer size (hundreds of KiB of records)
+        n = rng.choice((6000, 9000, 12000, 17000))
+        d = rng.randint(1, 7)
     K = rng.randint(1, min(4, n))
     style = rng.choice(("generic", "lattice", "unique"))
     X = []
@@ -77,15 +83,25 @@ def gen_case(rng, arm, tier, k=0):
     if r < 0.35:
         ids = list(range(n))
     elif r < 0.65:
-        ids = rng.sample(range(0, 500), n)
+        ids = rng.sample(range(0, max(500, 3 * n)), n)
     elif r < 0.85:
         base = rng.choice((2**24 - 3, 2**24 + 1, 20_000_000, 2**30 + 7))  # beyond float32's exact integers
         ids = [base + 1 + 2 * i + rng.randint(0, 1) for i in range(n)]
     else:
         ids = sorted(rng.sample(range(0, 2**31 - 1), n))
         ids[-1] = 2**31 - 1
+    if rng.random() < 0.15:
+        # identifiers are signed 32-bit integers in the binary format: negative ones are legal
+        ids = [-i - 1 if rng.random() < 0.6 else i for i in ids]
+        if rng.random() < 0.7:
+            ids[0] = max(-(2**31), -abs(ids[0]) - 1)
     case = {"n": n, "d": d, "K": K, "X": X, "Y": Y, "ids": ids, "style": style, "xform": rng.choice(("c", "c", "c", "f", "strided", "cols", "float32"))}
     ops = []
+    if arm == "big":
+        fm = ["txt", "csv", "json"]
+        rng.shuffle(fm)
+        case["ops"] = [["write_opf"]] + [["conv", f_, rng.random() < 0.5] for f_ in fm[:2]] + [["load", f_] for f_ in fm[:2]]
+        return case
     if arm == "mixed":
         ops.append(["write_opf"])
     splits = []
@@ -317,6 +333,10 @@ def run_case(case):
                     bump(out.probes, "ids_differ_from_row_numbers")
                 if max(fids) > 2**24:
                     bump(out.probes, "ids_beyond_float32_exact_range")
+                if min(fids) < 0:
+                    bump(out.probes, "negative_identifiers")
+                if len(fX) > 5000:
+                    bump(out.probes, "file_of_several_hundred_kib")
                 if K >= 3:
                     bump(out.probes, "three_or_more_classes")
                 log.add(kop, fmt)
@@ -439,4 +459,10 @@ def shrink(case):
 
 
 def sample_repr(case):
+    if len(case["X"]) > 60:
+        c = dict(case)
+        c["X"] = case["X"][:4] + ["... %d rows in all" % len(case["X"])]
+        c["Y"] = case["Y"][:12] + ["..."]
+        c["ids"] = case["ids"][:12] + ["..."]
+        return c
     return case
